@@ -651,6 +651,11 @@ pub fn check_family<C: Circuit<F>>(
     };
     let s0_plain = synth(unknown, false, None);
     let transparent = matches!(&s0_plain, Ok(p) if p.evs == s0.evs);
+    if !transparent && std::env::var("C09_DEBUG").is_ok() {
+        if let Ok(p) = &s0_plain {
+            eprintln!("spy diff {name}: {:?} (len {} vs {})", first_diff(&s0.evs, &p.evs), s0.evs.len(), p.evs.len());
+        }
+    }
     ctx.case("selfcheck", false, &format!("selfcheck spy-transparent {name}"), if transparent { "ok" } else { "differs" });
 
     // shape pass vs assignment pass
